@@ -162,10 +162,12 @@ var propImports = map[string][]imp{
 		{"C09.9/star-forward", "C08", "a STAR node forwards a private copy with the hop header intact whatever the local application does with its own copy", []string{"C08.4/star-forward"}},
 	},
 	"C10": {
+		{"C10.20/nil-safe", "C12", "tear-down clears optional fields (timers, listeners, the peer): a call made after Close, or a Close of something that never started, fails or does nothing instead of dereferencing what is no longer there", []string{"C12.18/nil-safe"}},
 		{"C10.19/lock-order", "C11", "Close takes the socket's and the endpoints' locks: two paths that take them in opposite orders can leave both held for ever, and Close never returns", []string{"C11.2/E2"}},
 		{"C10.12/E10c", "C19", "a queue that a goroutine re-fills under the socket lock has room for it: otherwise that goroutine blocks holding the lock and Close never returns", []string{"C19.2/E10c"}},
 	},
 	"C11": {
+		{"C11.15/nil-safe", "C12", "concurrent calls never crash the process: no use through an optional field where the module's own tests and assignments do not establish it, and no assignment into a map that may not have been made", []string{"C12.18/nil-safe"}},
 		{"C11.13/unsubscribe-prune", "C06", "unsubscribe prunes by draining the old queue into a fresh one without blocking: receivers take from the queue without the socket lock, so a pass that counts the queue and then receives that many times can block for ever holding the lock", []string{"C06.3/unsubscribe", "C06.9/queue-swap-wakes"}},
 		{"C11.14/context-state", "C05", "a RESPONDENT context's 'survey to answer' state is cleared and restored as a whole: a half-restored state lets the next SendMsg dereference a pipe that is not there", []string{"C05.2/context-send|protocol/respondent"}},
 		{"C11.12/forward-copies", "C08", "a message handed to the application and the one forwarded to other peers are separate copies: the application's writes do not race with the senders still transmitting it", []string{"C08.4/star-forward"}},
